@@ -227,6 +227,28 @@ def run(rep, tier, rng):
             rep.violation({"kind": "oracle", "what": "complete reader, %d pairs, after %r the bulk read returned the rows %r, expected %r"
                            % (n, ops[:-1], ids, list(range(first, n))), "case_kind": "pair", "case": c})
             break
+    # ---- the complete reader's typed entry points on a table with fewer rows than the file has records, a record of
+    # another type lying beyond the last row: typed and generic answers are the same pairs (kind 17)
+    tcases, tmeta = [], []
+    for T, U in ((21, 1), (3, 8), (8, 1), (15, 5), (31, 11), (1, 21)) if tier != "thorough" else [(a, b) for a in shapes.ALL_CODES for b in (1, 8) if a != b]:
+        recs = [F.gen_rec(rng, T, "finite", allow_degenerate=False) for _ in range(3)] + [F.gen_rec(rng, U, "finite", allow_degenerate=False)]
+        m = {"type": T, "box": [0] * 8, "records": [{"num": i + 1, "shape": r} for i, r in enumerate(recs)]}
+        shp, shx = refesri.encode_shp(m), refesri.encode_shx(m)
+        for nrows in (1, 2, 3):
+            for ops in ([("readall",)], [("it", -1)], [("it", 1), ("readall",)]):
+                for wi in (True, False):
+                    for req in (-1, T):
+                        tcases.append([17, req] + C.pack_bytes(shp) + ([1] + C.pack_bytes(shx) if wi else [0]) + [nrows] + C08.pair_case([], ops)[2:])
+                        tmeta.append((T, U, nrows, ops, wi, req))
+    timpl = stages.correspondence(rep, "pairfile_typed", dev, tcases, "pairfile(typed and generic complete reader, table shorter than the file)", vm_sample=20)
+    for i in range(0, len(tcases), 2):
+        (T, U, nrows, ops, wi, _), rg, rt = tmeta[i], timpl[i], timpl[i + 1]
+        if rg != rt and nrows < 3:
+            nfail += 1
+            rep.violation({"kind": "oracle", "what": "complete reader, 3 records of type %d then one of type %d, table of %d rows, %s index, ops %r: the typed "
+                           "entry points answer %r..., the generic ones %r..." % (T, U, nrows, "with" if wi else "without", ops, rt[:8], rg[:8]),
+                           "case_kind": "pairfile", "case": tcases[i + 1][:80]})
+            break
     # ---- typed random access and bulk reads
     bimpl = stages.correspondence(rep, "read_bulk", dev, bcases, "read(read_nth_shape_as / read_as / read, typed x actual)")
     for (T, S, items, codes, wi, ops2, htype), r, c in zip(bmeta, bimpl, bcases):
